@@ -255,7 +255,15 @@ def run(spec, ctx):
     viols = []
     lookalike = any(c['noise_header_before_report'] for c in res.children)
     ascii_out = bool((spec.get('knobs') or {}).get('parent_stdout_ascii'))
-    if res.hang:
+    if ascii_out and any(ev[0] == 0 and ev[1] == 'fault' and ev[2] in ('write:stdout', 'write:print')
+                         and not spec['plan'][ev[3]].get('text', '').isascii()
+                         for ev in res.trace):
+        # a test run by the parent itself printed what the parent's stdout cannot encode: that
+        # is an error of that test in this environment, nothing the channel has to do with
+        ascii_out = None
+    if ascii_out is None:
+        pass
+    elif res.hang:
         viols.append(C.viol('C07/hang', res.hang[:500]))
     elif res.raised and ascii_out and res.raised[0] == 'UnicodeEncodeError':
         pass      # the parent's main thread could not print: nothing to judge
